@@ -99,8 +99,11 @@ def gen_cases(ctx):
     if ctx.tier == "thorough":
         chosen = small
     else:
+        # quick: all of <=3 fields, and a seeded sample of the 4-field ones with accepted and rejected in equal parts
         k4 = [c for c in small if len(c[1]) == 4]
-        chosen = [c for c in small if len(c[1]) < 4] + rng.sample(k4, min(len(k4), 700))
+        acc = [c for c in k4 if G.py_expand(c[0], c[1]) is not None]
+        rej = [c for c in k4 if G.py_expand(c[0], c[1]) is None]
+        chosen = [c for c in small if len(c[1]) < 4] + rng.sample(acc, min(len(acc), 450)) + rng.sample(rej, min(len(rej), 250))
     for t, sh in chosen:
         yield t, sh, "state", "enum<=4"
     # permuted field order and one-element wrappers, 1-4 fields
